@@ -23,7 +23,8 @@ META = {
                   "the same wrong text) is not a disagreement of the routes: it is tallied (extra.off_specification_but_routes_agree) "
                   "and left to C01/C02; the specification then tells WHICH route is wrong when they differ.",
     "level_note": "Trusted: AldorSem.tla, renderer, gcc, shipped libraries. The interpreter's call-stack listing after a halt is treated as "
-                  "a diagnostic (not program output). Uncaught exceptions with payload and failed assertions are not in the family yet.",
+                  "a diagnostic (not program output); unit, line and quoted text of a failed assertion are not compared. Uncaught exceptions "
+                  "with payload are not in the family yet.",
 }
 
 
@@ -59,7 +60,7 @@ def run(chk, tier):
         # make halting programs frequent: force the feature on in every second program
         progs = []
         for i in range(m):
-            g = progen.ProgGen(((chk.seed + 7) % 1000003 + k) * 100003 + i)
+            g = progen.ProgGen(((chk.seed + 7) % 1000003 + k) * 100003 + i, emph=("halt",) if i % 2 == 0 else ())
             if i % 2 == 0:
                 g.feat |= {"halt", "fun"}
             progs.append(g.program("h%d_%d" % (k, i)))
@@ -95,6 +96,25 @@ def run(chk, tier):
     chk.extra["off_specification_but_routes_agree"] = agree
     for s_, c in famx.status_count.items():
         per["split:" + s_] = c
+    # failed assertions: `assert` is in the family as an opt-in feature.  -Qdel-assert (documented, on from -Q2) deletes
+    # assertions, so the specification is evaluated twice (AldorSem's DelAssert) and each level is compared with its own
+    na = 16 if tier == "quick" else 300
+    aprogs = []
+    for i in range(na):
+        g = progen.ProgGen(((chk.seed + 13) % 1000003) * 100003 + i)
+        g.feat |= {"assert", "fun"}
+        aprogs.append(g.program("as%d" % i))
+    fam_lo = progcheck.Family(chk, aprogs, "assert-kept", workers=vlib.NCPU, timeout=1500)
+    fam_hi = progcheck.Family(chk, aprogs, "assert-deleted", workers=vlib.NCPU, timeout=1500, delassert=True)
+    lo_levels = [q for q in levels if q < 2]
+    hi_levels = [2] if tier == "quick" else [q for q in levels if q >= 2]
+    rl = lambda qs: [(lab % q, rt, q, ()) for q in qs for (lab, rt) in (("interp-Q%d", "interp"), ("ao-interp-Q%d", "ao"), ("c-Q%d", "c"))]
+    merge_agree(agree, progcheck.replay(chk, b, fam_lo, rl(lo_levels), wd, agree_group=level_of))
+    merge_agree(agree, progcheck.replay(chk, b, fam_hi, rl(hi_levels), wd, agree_group=level_of))
+    per["assert-kept:halt"] = fam_lo.status_count.get("halt", 0)
+    per["assert-kept:done"] = fam_lo.status_count.get("done", 0)
+    per["assert-deleted:done"] = fam_hi.status_count.get("done", 0)
+    chk.extra["off_specification_but_routes_agree"] = agree
     # the pinned corpus through the Obs monitor: interpreter at -Q0 is the reference observation
     allnames = corpus.names()
     rnd = random.Random(chk.seed)
